@@ -72,6 +72,8 @@ class Function:
         self.file = d["file"]
         self.line = d["line"]
         self.invalid = d.get("invalid", False)
+        self.end_line = d.get("end_line", d["line"])
+        self.defaulted = d.get("defaulted", False)
         self.constm = d.get("constm", False)
         self.noexcept = d.get("noexcept", False)
         self.access = d.get("access", "none")
@@ -420,6 +422,12 @@ class Unit:
         self.records = [Record(r, self) for r in d["records"]]
         self.functions = [Function(f, self) for f in d["functions"]]
         self.fn_by_id = {f.id: f for f in self.functions}
+        # a function whose body contains a compile error is not analysable
+        errs = [(x["file"], x["line"]) for x in self.diagnostics if x["level"] == "error"]
+        for f in self.functions:
+            for ef, el in errs:
+                if ef == f.file and f.line <= el <= f.end_line:
+                    f.invalid = True
         self.rec_by_id = {r.id: r for r in self.records}
 
     def errors(self):
